@@ -136,9 +136,12 @@ func (f *Fosite) DefaultClientAuthenticationStrategy(ctx context.Context, r *htt
 			// Do not re-process already enhanced errors
 			var e *jwt.ValidationError
 			if errors.As(err, &e) {
-				if e.Inner != nil {
+				var rfcErr *RFC6749Error
+				if e.Inner != nil && errors.As(e.Inner, &rfcErr) {
 					return nil, e.Inner
 				}
+				// Everything else (a bad signature, but also an assertion that is expired, not valid yet or issued in the
+				// future, which the parser reports as a plain error) is a failed client authentication.
 				return nil, errorsx.WithStack(ErrInvalidClient.WithHint("Unable to verify the integrity of the 'client_assertion' value.").WithWrap(err).WithDebug(err.Error()))
 			}
 			return nil, err
